@@ -27,11 +27,13 @@ structure Pkt where
   state : PState
   deriving Repr, DecidableEq
 
-/-- One packet-number space: `sentPacketList` (oldest first; `start = nextNum - len`) + `maxAcked`. -/
+/-- One packet-number space: `sentPacketList` (oldest first; `start = nextNum - len`), `maxAcked`
+and the remembered skipped numbers. -/
 structure Space where
   nextNum : Int := 0
   pkts : List Pkt := []
   maxAcked : Int := -1
+  skipped : List Int := []   -- every number skipped by `skipNumber` (newest first)
   deriving Repr, DecidableEq
 
 /-- `persistentCongestion[space]`. -/
@@ -217,7 +219,7 @@ def Loss.packetSent (l : Loss) (space : Nat) (size : Int) (ae inFlight : Bool) (
 def Loss.skipNumber (l : Loss) (space : Nat) (now : Int) : Loss :=
   let s := l.space space
   let p : Pkt := { num := s.nextNum, size := 0, time := now, ackEliciting := false, inFlight := false, state := .unsent }
-  l.setSpace space (s.add p)
+  l.setSpace space { (s.add p) with skipped := s.nextNum :: s.skipped }
 
 structure AckWalk where
   pkts : List Pkt
@@ -249,6 +251,8 @@ def ackWalk (lo hi : Int) (cc : CC) (maxAcked : Int) : List Pkt → AckWalk
 packets acknowledged before the violation was noticed stay acknowledged, as in the Go code. -/
 def Loss.receiveAckRange (l : Loss) (space : Nat) (start end_ : Int) : Loss × List Callback × Bool :=
   let s := l.space space
+  -- an acknowledgement for a skipped number is an error even after the list forgot the skip
+  if s.skipped.any (fun k => decide (start ≤ k ∧ k < end_)) then (l, [], true) else
   let start := if start < s.start then s.start else start
   if end_ > s.nextNum then (l, [], true)
   else if start ≥ end_ then (l, [], false)
